@@ -222,7 +222,8 @@ package xmss
 //@   ensures[XF] hashFunction <= 2 ==> forall A2:arr, PK2:arr, o2 :: (forall w_ :: 0 <= w_ && w_ < 5 ==> A2[w_] == old(addr[w_])) && (forall p_ :: 0 <= p_ && p_ < 32*params.len ==> old(wotsPK[p_]) == PK2[p_ + o2]) ==> forall q_ :: 0 <= q_ && q_ < 32 ==> leaf[q_] == spec.lnode(hashFunction, spec.sub(pubSeed, 32), A2, PK2, o2, params.len, ltreeT(params.len), 0)[q_]
 //@   assigns leaf[0:32], wotsPK, *addr
 //@   loop 1 invariant 1 <= l && l <= params.len && n == 32 && forall k_ :: 0 <= k_ && k_ < 5 ==> addr[k_] == old(addr[k_])
-//@   loop 1 invariant[XF] ltab(params.len, height, l) && l == spec.llen(params.len, height) && addr[5] == height
+//@   loop 1 invariant ltab(params.len, height, l)
+//@   loop 1 invariant[XF] l == spec.llen(params.len, height) && addr[5] == height
 //@   loop 1 invariant[XF] hashFunction <= 2 ==> forall j_, q_ :: 0 <= j_ && j_ < l && 0 <= q_ && q_ < 32 ==> wotsPK[32*j_+q_] == spec.lnode(hashFunction, spec.sub(pubSeed, 32), arr(old(addr)), old(wotsPK), params.len, height, j_)[q_]
 //@   loop 1 decreases l
 //@   loop 2 invariant 0 <= i && i <= bound && bound == l / 2 && forall k_ :: 0 <= k_ && k_ < 5 ==> addr[k_] == old(addr[k_])
